@@ -44,6 +44,7 @@ func main() {
 	applyRound2Texts()
 	applyRound3Texts()
 	applyRound4Texts()
+	applyRound5Texts()
 	if *verif == "" {
 		exe, _ := os.Executable()
 		*verif = filepath.Dir(filepath.Dir(exe))
@@ -167,6 +168,9 @@ func runProp(w *World, p *propDef, tier, verif string, seed int, start time.Time
 	extraNonNil = nil
 	nonNilSummary = map[*ssa.Function]int{}
 	p.Run(c)
+	if f := round5Extras[p.ID]; f != nil {
+		f(c)
+	}
 	extraNonNil = nil
 	nonNilSummary = map[*ssa.Function]int{}
 	if tier == "thorough" {
